@@ -1163,16 +1163,16 @@ func genC33(g *Gen, idx int) *Plan {
 
 func init() {
 	Register(&Check{ID: "C17", Level: "fault_enumeration",
-		Rule:   "real client library against the scripted gateway; per packet class (PUBLISH, PUBREL, SUBSCRIBE from the client; PUBACK, PUBREC, PUBCOMP, SUBACK to it) a planned rule drops the first j (1..RetryCount+1, i.e. within and beyond the budget), duplicates or delays occurrences; gateway-initiated QoS 2 with repeated PUBREL after completion; in 12 % of the runs the gateway never acknowledges and sends DISCONNECT while the call waits (the call must not report success); non-trivial = a retransmission, a PUBREL received or an acknowledged/unacknowledged Publish judged",
+		Rule:   "real client library against the scripted gateway; per packet class (PUBLISH, PUBREL, SUBSCRIBE from the client; PUBACK, PUBREC, PUBCOMP, SUBACK to it) a planned rule drops the first j (1..RetryCount+1, i.e. within and beyond the budget), duplicates or delays occurrences; gateway-initiated QoS 2 with repeated PUBREL after completion; in 12 % of the runs the gateway never acknowledges and sends DISCONNECT while the call waits (the call must not report success); every 12th plan has subscription handlers that publish QoS 1/2 themselves and wait, and a burst of 2-12 messages for them, lossless (acknowledged = the acknowledgement reached the client's socket in time); an acknowledgement read after a failed write of the client's own is don't-care; non-trivial = a retransmission, a PUBREL received or an acknowledged/unacknowledged Publish judged",
 		Gen:    genC17, Oracle: oracleC17, Quick: 3000, Thorough: 240000})
 	Register(&Check{ID: "C27", Level: "exploration",
 		Rule:   "filters and topic names over {a,b,'',+,#} up to 3 levels (empty levels, trailing '/', '#' at parent level), subscribe/unsubscribe histories of 2-8 calls, the scripted gateway delivers PUBLISHes (QoS 0/1 on receipt, QoS 2 on PUBREL) between the calls; judged with refmqtt.Match; deliveries that race an in-flight Subscribe/Unsubscribe are don't-care; in a fifth of the runs one Unsubscribe fails (the gateway ignores it and its retransmissions) and the subscription must stay what it was; non-trivial = at least one delivery judged",
 		Gen:    genC27, Oracle: oracleC27, Quick: 2400, Thorough: 240000})
 	Register(&Check{ID: "C28", Level: "fault_enumeration",
-		Rule:   "for each of 10 API calls (register, subscribe, unsubscribe, publish QoS 0/1/2, ping, sleep, disconnect, close) x 11 behaviours of the gateway and the network (answering, silent for the call's packet class, silent for a later step, silent forever from an instant, unsolicited packets of random types, DISCONNECT from the gateway, the previous acknowledgement repeated for every retransmittable step / every acknowledgement twice / CONNACK again and again, DISCONNECT repeated for minutes incl. while the client sleeps, an API call in a wrong state (Sleep before Connect) followed by a DISCONNECT from the gateway, a REGISTER the client must refuse followed by more work, the client's own writes failing with an error), KeepAlive on/off; bound per call from ConnectTimeout/RetryDelay/RetryCount/sleep duration + 50 ms; goroutine census of client frames after Close/DISCONNECT; non-trivial = every run",
+		Rule:   "for each of 10 API calls (register, subscribe, unsubscribe, publish QoS 0/1/2, ping, sleep, disconnect, close) x 11 behaviours of the gateway and the network (answering, silent for the call's packet class, silent for a later step, silent forever from an instant, unsolicited packets of random types, DISCONNECT from the gateway, the previous acknowledgement repeated for every retransmittable step / every acknowledgement twice / CONNACK again and again, DISCONNECT repeated for minutes incl. while the client sleeps, an API call in a wrong state (Sleep before Connect) followed by a DISCONNECT from the gateway, a REGISTER the client must refuse followed by more work, the client's own writes failing with an error), KeepAlive on/off; every 12th plan: Disconnect/Close called one RetryDelay (less 0-20 ms) after an unanswered keep-alive or user PINGREQ, slow client around that instant; bound per call from ConnectTimeout/RetryDelay/RetryCount/sleep duration + 50 ms; goroutine census of client frames after Close/DISCONNECT; non-trivial = every run",
 		Gen:    genC28, Oracle: oracleC28, Quick: 2400, Thorough: 200000})
 	Register(&Check{ID: "C33", Level: "exploration",
-		Rule:   "KeepAlive 2-6 s, RetryDelay < KeepAlive; Sleep/Publish/Ping/Register/Subscribe/Disconnect placed at k*KeepAlive +- {0,1,2,20,300} ms, Sleep also one RetryDelay (less a round trip) after a tick whose ping stays unanswered, yield focus on keepaliveLoop/Ping/sleep transaction, optionally the first PINGRESPs lost or every PINGRESP late by 30 ms..0.8 RetryDelay (it arrives after the answer to the call made right after the tick); the client's own state changes are recorded from its log; keep-alive PINGREQs (those without client id) must not be sent after the client has logged asleep/disconnected, gaps while active <= KeepAlive + RetryDelay + 20 ms, no API call may fail or hang against an answering gateway, a Sleep(d) that returns nil lasted d and sent the wake-up PINGREQ; non-trivial = a keep-alive PINGREQ was sent",
+		Rule:   "KeepAlive 2-6 s, RetryDelay < KeepAlive; Sleep/Publish/Ping/Register/Subscribe/Disconnect placed at k*KeepAlive +- {0,1,2,20,300} ms, Sleep (and, every 10th plan, Disconnect/Close) also one RetryDelay (less a round trip) after a tick whose ping stays unanswered, yield focus on keepaliveLoop/Ping/sleep transaction, optionally the first PINGRESPs lost or every PINGRESP late by 30 ms..0.8 RetryDelay (it arrives after the answer to the call made right after the tick); the client's own state changes are recorded from its log; keep-alive PINGREQs (those without client id) must not be sent after the client has logged asleep/disconnected, gaps while active <= KeepAlive + RetryDelay + 20 ms, no API call may fail or hang against an answering gateway, a Sleep(d) that returns nil lasted d and sent the wake-up PINGREQ; non-trivial = a keep-alive PINGREQ was sent",
 		Gen:    genC33, Oracle: oracleC33, Quick: 8000, Thorough: 240000})
 }
 
